@@ -81,3 +81,36 @@ package hack
 //@   assigns c.Conn.tlsClosed, c.doneCalls
 //@   ensures [C11,C16:closes-inner] c.Conn.tlsClosed == old(c.Conn.tlsClosed) + 1
 //@   ensures [C11,C16:releases-waiter-on-every-path] c.doneCalls == old(c.doneCalls) + 1
+
+//@ -- C11: the wrappers sit between net/http (or crypto/tls) and the socket; the read/idle/handshake timeouts only work
+//@ -- if each deadline call reaches the inner connection unchanged, for the same direction
+//@ func (*HijackClientHelloConn).SetReadDeadline :: c, t -> err
+//@   props C11
+//@   requires c != nil && c.tlsConn != nil
+//@   assigns dlConn, dlKind, dlTime
+//@   ensures [C11:read-deadline-reaches-the-socket] dlConn == c.tlsConn && dlKind == 1 && dlTime == t
+//@ func (*HijackClientHelloConn).SetWriteDeadline :: c, t -> err
+//@   props C11
+//@   requires c != nil && c.tlsConn != nil
+//@   assigns dlConn, dlKind, dlTime
+//@   ensures [C11:write-deadline-reaches-the-socket] dlConn == c.tlsConn && dlKind == 2 && dlTime == t
+//@ func (*HijackClientHelloConn).SetDeadline :: c, t -> err
+//@   props C11
+//@   requires c != nil && c.tlsConn != nil
+//@   assigns dlConn, dlKind, dlTime
+//@   ensures [C11:deadline-reaches-the-socket] dlConn == c.tlsConn && dlKind == 3 && dlTime == t
+//@ func (*TLSClientHelloConn).SetReadDeadline :: c, t -> err
+//@   props C11
+//@   requires c != nil && c.Conn != nil
+//@   assigns dlConn, dlKind, dlTime
+//@   ensures [C11:read-deadline-reaches-the-tls-connection] isptr(tls.Conn, dlConn) && unboxptr(tls.Conn, dlConn) == c.Conn && dlKind == 1 && dlTime == t
+//@ func (*TLSClientHelloConn).SetWriteDeadline :: c, t -> err
+//@   props C11
+//@   requires c != nil && c.Conn != nil
+//@   assigns dlConn, dlKind, dlTime
+//@   ensures [C11:write-deadline-reaches-the-tls-connection] isptr(tls.Conn, dlConn) && unboxptr(tls.Conn, dlConn) == c.Conn && dlKind == 2 && dlTime == t
+//@ func (*TLSClientHelloConn).SetDeadline :: c, t -> err
+//@   props C11
+//@   requires c != nil && c.Conn != nil
+//@   assigns dlConn, dlKind, dlTime
+//@   ensures [C11:deadline-reaches-the-tls-connection] isptr(tls.Conn, dlConn) && unboxptr(tls.Conn, dlConn) == c.Conn && dlKind == 3 && dlTime == t
